@@ -24,7 +24,7 @@ import c20_gen as gen
 import c20_proj as proj
 
 PID = "C20"
-CASES_PER_FILE = 120
+CASES_PER_FILE = 60
 
 
 # ---------------------------------------------------------------------------------------------
@@ -318,23 +318,32 @@ HEADER = ("From Coq Require Import List NArith Bool.\nFrom PV Require Import Mer
 
 
 def make_case(py, pyi, out, err):
-  """Returns (coq_text, trees) or raises NotExplorable."""
+  """Returns (coq text of (program, stub), token stream of the real output) or raises NotExplorable."""
   p = proj.project(py)
   s = proj.project(pyi, stub=True)
   o = proj.project(out, strict=False) if out is not None else ()
   it = proj.Interner([p, s, o])
   pi, si = it.tree(p), it.tree(s)
   expected = [999] if out is None else proj.ser_module(it.tree(o))
-  text = "(%s,\n %s,\n [%s])" % (proj.coq(pi), proj.coq(si), "; ".join(map(str, expected)))
-  return text
+  text = "(%s,\n %s)" % (proj.coq(pi), proj.coq(si))
+  return text, expected
+
+
+def hash_tokens(toks):
+  """Model.hash_tokens."""
+  h = 7
+  for t in toks:
+    h = (h * 1000003 + t + 1) % 2305843009213693951
+  return h
 
 
 def run_model(cases, tag):
-  """cases: list of coq case texts.  Returns list of bitmasks (None where the model run failed)."""
+  """cases: list of coq case texts.  Returns a list of (hash as-written, hash fixed, monitor bits)
+  (None where the model run failed)."""
   files = []
   for k in range(0, len(cases), CASES_PER_FILE):
     chunk = cases[k:k + CASES_PER_FILE]
-    body = HEADER + "Definition cases : list (list item * list item * list N) := [\n" + \
+    body = HEADER + "Definition cases : list (list item * list item) := [\n" + \
         ";\n".join(chunk) + "].\nEval vm_compute in (map check_case cases).\n"
     files.append(("c20_%s_%d" % (tag, k // CASES_PER_FILE), body, len(chunk)))
   results = {}
@@ -351,7 +360,8 @@ def run_model(cases, tag):
     if ok:
       ev = common.parse_coq_eval(txt)
       if ev:
-        vals = [int(x) for x in re.findall(r"\d+", ev[0])]
+        nums = [int(x) for x in re.findall(r"\d+", ev[0])]
+        vals = [tuple(nums[i:i + 3]) for i in range(0, len(nums), 3)] if len(nums) % 3 == 0 else None
     if vals is None or len(vals) != cnt:
       logs.append("%s: %s" % (n, txt[-1500:]))
       out += [None] * cnt
@@ -361,7 +371,7 @@ def run_model(cases, tag):
 
 
 def model_tokens(case_text, variant):
-  body = HEADER + "Eval vm_compute in (let '(p, s, _) := %s in ser_merged (merge %s p s)).\n" % (
+  body = HEADER + "Eval vm_compute in (let '(p, s) := %s in ser_merged (merge %s p s)).\n" % (
       case_text, "AsWritten" if variant == "as-written" else "Fixed")
   ok, txt = common.run_cases_v("c20_debug", body)
   ev = common.parse_coq_eval(txt) if ok else []
@@ -410,6 +420,38 @@ def infer_stub(py):
 
 
 # ---------------------------------------------------------------------------------------------
+
+def _work(job):
+  """One input: real merge, projection to a Coq case, oracle.  Runs in a forked worker."""
+  name, py, pyi = job
+  d = {"name": name, "py": py}
+  if pyi is None:
+    pyi = infer_stub(py)
+    if pyi is None:
+      d["skip"] = "inference-failed"
+      return d
+    d["inferred"] = True
+  d["pyi"] = pyi
+  out, err = impl_merge(py, pyi)
+  d["out"], d["err"] = out, err
+  try:
+    d["coq"], d["tokens"] = make_case(py, pyi, out, err)
+  except proj.NotExplorable as e:
+    d["skip"] = str(e).split(":")[0][:40]
+  except SyntaxError:
+    d["skip"] = "stub-or-output-unparsable"
+    if out is not None:
+      try:
+        compile(out, "<merged>", "exec", dont_inherit=True)
+      except SyntaxError as e:
+        d["nocompile"] = str(e)
+  if out is not None and "skip" not in d:
+    try:
+      d["findings"] = oracle(py, pyi, out)
+    except Exception as e:   # an oracle crash must not pass silently
+      d["findings"] = [Finding("oracle-crashed", repr(e))]
+  return d
+
 
 def shrink(py, pyi, fp, variant_bits, budget_s=20.0):
   """Greedy line removal on both texts while the oracle still reports the same finding kind."""
@@ -465,38 +507,32 @@ def run(res):
   res.trusted_base += ["harness/props/c20_proj.py (ast -> mini tree, serialiser mirrored in Model.ser_item)",
                        "CPython ast/compile as the notion of 'same syntax tree' and 'compiles'"]
   r = common.rng(res.seed, "c20")
-  inputs = corpus_cases() + generated_cases(r, 700 if thorough else 110, thorough)
+  inputs = corpus_cases() + generated_cases(r, 700 if thorough else 70, thorough)
   t_impl = time.time()
   recs = []           # dict per explorable case
   skipped = {}
   n_inferred = 0
-  for name, py, pyi in inputs:
-    if pyi is None:
-      pyi = infer_stub(py)
-      if pyi is None:
-        skipped["inference-failed"] = skipped.get("inference-failed", 0) + 1
-        continue
+  import multiprocessing
+  from pytype.tools.merge_pyi import merge_pyi  # noqa: F401  (imported before forking)
+  with multiprocessing.get_context("fork").Pool(4) as pool:
+    done = pool.map(_work, inputs, chunksize=8)
+  for d in done:
+    if d.get("inferred"):
       n_inferred += 1
-    out, err = impl_merge(py, pyi)
-    try:
-      text = make_case(py, pyi, out, err)
-    except proj.NotExplorable as e:
-      key = str(e).split(":")[0][:40]
-      skipped[key] = skipped.get(key, 0) + 1
+    if "skip" in d:
+      skipped[d["skip"]] = skipped.get(d["skip"], 0) + 1
+      if d.get("nocompile"):
+        res.violation("output-does-not-compile", "merge_sources output does not compile: %s" % d["nocompile"],
+                      {"py": d["py"], "pyi": d["pyi"]})
       continue
-    except SyntaxError:
-      skipped["stub-or-output-unparsable"] = skipped.get("stub-or-output-unparsable", 0) + 1
-      if out is not None:
-        try:
-          compile(out, "<merged>", "exec", dont_inherit=True)
-        except SyntaxError as e:
-          res.violation("output-does-not-compile", "merge_sources output does not compile: %s" % e,
-                        {"py": py, "pyi": pyi})
-      continue
-    recs.append({"name": name, "py": py, "pyi": pyi, "out": out, "err": err, "coq": text})
+    recs.append(d)
   res.extra["impl_seconds"] = round(time.time() - t_impl, 1)
   t_model = time.time()
-  bits, logs = run_model([c["coq"] for c in recs], "q" if not thorough else "t")
+  raw, logs = run_model([c["coq"] for c in recs], "q" if not thorough else "t")
+  # bit 1: as-written model = implementation, bit 2: fixed model = implementation, then the monitors
+  bits = [None if x is None else
+          (1 if x[0] == hash_tokens(c["tokens"]) else 0) + (2 if x[1] == hash_tokens(c["tokens"]) else 0) + x[2]
+          for c, x in zip(recs, raw)]
   res.extra["model_seconds"] = round(time.time() - t_model, 1)
   if logs:
     res.obligation("model-run", False, "\n".join(logs)[:3000])
@@ -534,11 +570,7 @@ def run(res):
     res.count((c["py"], c["pyi"]) if changed else None)
     if changed and len(res.samples) < 3 and len(c["py"]) < 200:
       res.sample({"py": c["py"], "pyi": c["pyi"], "merged": c["out"]})
-    try:
-      fs = oracle(c["py"], c["pyi"], c["out"])
-    except Exception as e:   # an oracle crash must not pass silently
-      fs = [Finding("oracle-crashed", repr(e))]
-    c["findings"] = fs
+    fs = c["findings"]
     if fs:
       n_viol_cases += 1
     for f in fs:
@@ -562,7 +594,7 @@ def run(res):
     res.obligation("correspondence:" + c["name"], False,
                    "model (%s) and merge_sources differ.\npy:\n%s\npyi:\n%s\nimpl:\n%s\nmodel tokens: %s\nimpl tokens: %s" % (
                        variant, c["py"], c["pyi"], c["out"] if c["out"] is not None else "MergeError: " + str(c["err"]),
-                       toks, c["coq"].rsplit("[", 1)[1][:-2]))
+                       toks, c["tokens"]))
   res.obligation("correspondence:model-vs-merge_sources", not mism and bool(ok_cases),
                  "%d of %d cases disagree with the %s model" % (len(mism), len(ok_cases), variant))
   n_skip = sum(skipped.values())
